@@ -34,7 +34,10 @@ def rand_midi_score(rng, offgrid=False, many=False):
         k = sum(1 for x in names if x.startswith(base + "__"))
         names.append(f"{base}__{k}")
     if rng.random() < 0.3:
-        names.insert(rng.randrange(len(names) + 1), "drums_0__0")
+        # 'drums' is the library's alias of 'drums_0'; sometimes a second drum voice
+        names.insert(rng.randrange(len(names) + 1), rng.choice(["drums_0__0", "drums_0__0", "drums__0"]))
+        if rng.random() < 0.2:
+            names.insert(rng.randrange(len(names) + 1), rng.choice(["drums_0__1", "drums__1"]))
     chords = []
     for _ in range(rng.randrange(1, 4)):
         c = {"elem": rng.randrange(7), "fig": rng.choice(["", "6", "7"]), "tdeg": rng.randrange(12), "tmode": rng.choice(["M", "m", "dorian"]),
